@@ -169,12 +169,31 @@ def body_direct_mode_error(h):
     return [C, H, D, M]
 
 
+def body_resume_undefined(h):
+    """RESUME to a line that does not exist is an error inside the handler: the program stops with
+    Undefined line number instead of entering the handler again"""
+    prog = [b'10 ON ERROR GOTO 100', b'20 M%=1: ERROR E%: M%=M%+10: END',
+            # (the guard keeps a looping interpreter from hanging the check)
+            b'100 H%=H%+1: IF H%>3 THEN END', b'110 RESUME 999']
+    impl = _setup(h, prog, [b'M%', b'E%', b'H%'])
+    e = h.bytes('e', 2)
+    E = s16(e)
+    h.assume(s_and(E >= 1, E <= 255))
+    session.poke_int(h, impl, b'E%', e)
+    impl.execute(b'GOTO 10')
+    M, H = _geti(impl, b'M%'), _geti(impl, b'H%')
+    h.require('handler-entered-once', s_and(M == 1, H == 1), [M, H])
+    h.require('stops-with-undefined-line-number', impl.interpreter.error_num == 8, impl.interpreter.error_num)
+    return [M, H, impl.interpreter.error_num]
+
+
 def cases(tier):
     cs = [Case('fault-resume', body_fault, timeout_s=1500),
           Case('error-n', body_error_n, params={'sub': False}, max_fanout=300),
           Case('error-n-in-gosub', body_error_n, params={'sub': True}, max_fanout=300),
           Case('error-in-handler', body_in_handler, max_fanout=300),
           Case('no-handler', body_no_handler, max_fanout=300),
+          Case('resume-to-undefined-line', body_resume_undefined, max_fanout=300),
           Case('erl-high-line-number', body_high_line, max_fanout=300),
           Case('direct-mode-error-with-handler', body_direct_mode_error, max_fanout=300)]
     for f in ('plain', 'next', 'line'):
